@@ -1443,7 +1443,7 @@ let rec simplify_fuel fuel n0 =
         | EQUIVALENCE ->
           (match s' (Node ((DOp IMPLIES), l, r)) with
            | Ok l' ->
-             (match s' (Node ((DOp IMPLIES), r, l)) with
+             (match s' (Node ((DOp IMPLIES), r, (Some l'))) with
               | Ok r' -> Ok (bin AND l' r')
               | Err e -> Err e)
            | Err e -> Err e)
@@ -2064,8 +2064,10 @@ let rel_is_group r =
 
 let rel_is_cardinal r =
   (&&)
-    ((&&) ((&&) (rel_is_group r) (negb (rel_is_alternative r)))
-      (negb (rel_is_or r))) (negb (rel_is_mutex r))
+    ((&&)
+      ((&&) ((&&) (negb (rel_is_mandatory r)) (negb (rel_is_optional r)))
+        (negb (rel_is_alternative r))) (negb (rel_is_or r)))
+    (negb (rel_is_mutex r))
 
 (** val rel_type_str : relation -> char list **)
 
